@@ -95,7 +95,7 @@ def plan(tier):
                          "init.state", "init.name")
 
     pl.label_filter = lf
-    pl.static = [static_T, lambda: lexfacts.obligations_L(PID), lambda: lexfacts.obligations_structure(PID)]
+    pl.static = [static_T, lambda: lexfacts.obligations_L(PID), lambda: lexfacts.obligations_L_exact(PID), lambda: lexfacts.obligations_structure(PID)]
     pl.bounded = [bounded_tokens, bounded_generated]
     pl.functions = common.ARG_FUNCTIONS + [("sievelib.commands", "get_command_instance")] + common.PUSHDOWN_FUNCTIONS + [("sievelib.parser", "Parser.parse")]
     pl.trusted = [common.TRUSTED_LOWER, common.TRUSTED_RE, "frozen RFC command table (contracts/tables_frozen.py) and the RFC 5228 8.1 "
